@@ -779,9 +779,9 @@ Proof.
   destruct (find_def n s) as [[ps body]|]; reflexivity.
 Qed.
 
-Lemma defs_instr m : forallb fsrc_t m = true -> forall n, defs_of (finstr_module c ge m) n = itab (defs_of m) n.
+Lemma defs_instr m : forallb fsrc_t m = true -> forall n, defs_of (finstr_module0 c ge m) n = itab (defs_of m) n.
 Proof.
-  intros Hs n. unfold finstr_module, itab. rewrite !defs_of_app, (defs_flat m n Hs).
+  intros Hs n. unfold finstr_module0, itab. rewrite !defs_of_app, (defs_flat m n Hs).
   destruct (sub c E_init_module); cbn [defs_of find_def]; destruct (defs_of m n) as [[ps body]|]; try reflexivity;
     destruct (sub c E_exit_module); reflexivity.
 Qed.
@@ -800,15 +800,15 @@ Proof.
 Qed.
 
 (* ================================================================ the module *)
-Theorem fmodule_sim m : forallb fsrc_t m = true -> forall d r sv,
-  fsim (frun binop cmpop unop truth cval is_and c pol d (finstr_module c ge m) r sv)
-       (fref_module binop cmpop unop truth cval is_and c pol ge d m r).
+Theorem fmodule_sim0 m : forallb fsrc_t m = true -> forall d r sv,
+  fsim (frun binop cmpop unop truth cval is_and c pol d (finstr_module0 c ge m) r sv)
+       (fref_module0 binop cmpop unop truth cval is_and c pol ge d m r).
 Proof.
-  intros Hs d r sv. unfold frun, FragFun.fref_module.
-  pose proof (calls_agree (defs_of (finstr_module c ge m)) (defs_of m) (defs_instr m Hs) (defs_src m Hs) d) as Hc.
-  set (call := fcall binop cmpop unop truth cval is_and c pol (defs_of (finstr_module c ge m)) d) in *.
+  intros Hs d r sv. unfold frun, FragFun.fref_module0.
+  pose proof (calls_agree (defs_of (finstr_module0 c ge m)) (defs_of m) (defs_instr m Hs) (defs_src m Hs) d) as Hc.
+  set (call := fcall binop cmpop unop truth cval is_and c pol (defs_of (finstr_module0 c ge m)) d) in *.
   set (callr := fcallr binop cmpop unop truth cval is_and c pol ge (defs_of m) d) in *.
-  unfold finstr_module.
+  unfold finstr_module0.
   set (g0 := fun _ : N => @None val).
   assert (HB : forall r sv p p', fl p = fl p' -> fsim (fexec_l call None g0 (flat_map (fis c ge true) m) r sv p) (fref_l callr false true None g0 m r p')).
   { intros. apply (floud_list call callr); [apply (floud_all call callr Hc)|exact Hs|assumption]. }
@@ -830,6 +830,36 @@ Proof.
   - cbn [app]. assert (H0 : fl [] = fl [(E_init_module, 0, Some VNone)]) by (rewrite fl_single, Im; reflexivity).
     destruct (HX r sv [] _ H0) as (X1 & X2 & X3). unfold fsim. cbn [fr_exc fr_env fr_log] in *. repeat split; try assumption.
     rewrite fl_cons, Im. exact X3.
+Qed.
+
+(* the module docstring: as written, first, silent; it defines no function *)
+Lemma frest_src m : forallb fsrc_t m = true -> forallb fsrc_t (frest m) = true.
+Proof.
+  destruct m as [|d rest]; [reflexivity|]. unfold frest. destruct (is_docstring d); [|auto].
+  cbn [forallb]. intros H. now apply andb_true_iff in H as [_ H].
+Qed.
+Lemma fdoc_frest m : fdoc m ++ frest m = m.
+Proof. destruct m as [|d rest]; [reflexivity|]. unfold fdoc, frest. now destruct (is_docstring d). Qed.
+Lemma frun_doc cc pp dd u d r sv : is_docstring dd = true ->
+  f_exc (frun binop cmpop unop truth cval is_and cc pp d (dd :: u) r sv) = f_exc (frun binop cmpop unop truth cval is_and cc pp d u r sv) /\
+  f_env (frun binop cmpop unop truth cval is_and cc pp d (dd :: u) r sv) = f_env (frun binop cmpop unop truth cval is_and cc pp d u r sv) /\
+  f_log (frun binop cmpop unop truth cval is_and cc pp d (dd :: u) r sv) = f_log (frun binop cmpop unop truth cval is_and cc pp d u r sv).
+Proof.
+  destruct dd as [n v| | | | | | | | | |]; try discriminate. destruct v as [v| | |]; try discriminate.
+  destruct v as [|m sc| | | | | | | | | | |]; try discriminate. destruct sc; try discriminate. intros _.
+  unfold frun. change (defs_of (FExpr n (RExp (XConst m (SStr s))) :: u)) with (fun k => defs_of u k).
+  cbn [FragFun.fexec_l]. unfold fseq. cbn [FragFun.fexec_s FragFun.eval_r FragSem.eval_e fexc_of f_exc f_env f_saved f_log app].
+  repeat split; reflexivity.
+Qed.
+Theorem fmodule_sim m : forallb fsrc_t m = true -> forall d r sv,
+  fsim (frun binop cmpop unop truth cval is_and c pol d (finstr_module c ge m) r sv)
+       (fref_module binop cmpop unop truth cval is_and c pol ge d m r).
+Proof.
+  intros Hs d r sv. unfold finstr_module, FragFun.fref_module.
+  pose proof (fmodule_sim0 (frest m) (frest_src m Hs) d r sv) as M.
+  destruct m as [|dd rest]; [exact M|]. unfold fdoc, frest in *. destruct (is_docstring dd) eqn:Ed; [|exact M].
+  cbn [app]. destruct (frun_doc c pol dd (finstr_module0 c ge rest) d r sv Ed) as (E1 & E2 & E3).
+  destruct M as (M1 & M2 & M3). unfold fsim. rewrite E1, E2, E3. repeat split; assumption.
 Qed.
 
 (* ================================================================ the source program as it is (no rewriting at all) computes the reference results *)
@@ -947,14 +977,22 @@ Proof.
   - cbn [fcall fcallr]. apply plain_step; assumption.
 Qed.
 
-Theorem fplain_module m : forallb fsrc_t m = true -> forall d r sv,
-  fres_eq (frun binop cmpop unop truth cval is_and c0 pol0 d m r sv) (fref_module binop cmpop unop truth cval is_and c pol ge d m r).
+Theorem fplain_module0 m : forallb fsrc_t m = true -> forall d r sv,
+  fres_eq (frun binop cmpop unop truth cval is_and c0 pol0 d m r sv) (fref_module0 binop cmpop unop truth cval is_and c pol ge d m r).
 Proof.
-  intros Hs d r sv. unfold frun, FragFun.fref_module.
+  intros Hs d r sv. unfold frun, FragFun.fref_module0.
   pose proof (plain_calls (defs_of m) (defs_src m Hs) d) as Hc.
   match goal with |- context [fref_l ?CR false true None ?G m r ?P] =>
     destruct (fplain_list _ CR c0 pol0 m (fplain_all _ CR Hc m) Hs false true None G r sv [] P) as [B1 B2] end.
   split; cbn [fr_exc fr_env]; assumption.
+Qed.
+Theorem fplain_module m : forallb fsrc_t m = true -> forall d r sv,
+  fres_eq (frun binop cmpop unop truth cval is_and c0 pol0 d m r sv) (fref_module binop cmpop unop truth cval is_and c pol ge d m r).
+Proof.
+  intros Hs d r sv. unfold FragFun.fref_module.
+  pose proof (fplain_module0 (frest m) (frest_src m Hs) d r sv) as M.
+  destruct m as [|dd rest]; [exact M|]. unfold frest in *. destruct (is_docstring dd) eqn:Ed; [|exact M].
+  destruct (frun_doc c0 pol0 dd rest d r sv Ed) as (E1 & E2 & _). destruct M as (M1 & M2). unfold fres_eq. rewrite E1, E2. split; assumption.
 Qed.
 
 (* ================================================================ scoping: the instrumented copy of a body assigns no name the pristine copy does not assign
